@@ -3,7 +3,6 @@ package c04
 import (
 	"encoding/json"
 	"fmt"
-	"math"
 	"math/rand"
 	"strings"
 
@@ -97,6 +96,9 @@ func genChain(r *rand.Rand) any {
 
 	parentFS, rootFS := 16.0, 16.0
 	parentFW := 400.0
+	// index in fsKeywords when the parent's font size is a table entry reached without arithmetic
+	// (keyword, equal px literal, inheritance), -1 otherwise: only then is larger / smaller exact
+	parentKw := 3
 	parentLH := lhState{kind: "normal"}
 	parentLen := make([]lenState, len(chainLenProps))
 	for i, lp := range chainLenProps {
@@ -115,13 +117,20 @@ func genChain(r *rand.Rand) any {
 
 		// ---- font-size
 		fs := parentFS
+		kwIdx := -1
 		fsExp := chainExp{Prop: "font-size"}
 		switch k := r.Intn(12); {
 		case k < 3: // undeclared: inherited
 			fsExp.RelUse = li > 0
+			kwIdx = parentKw
 		case k == 3:
 			fs = pickF(r, chainPx)
 			fsExp.Decl = fmtNum(fs) + "px"
+			for i, kw := range fsKeywords {
+				if kw.px == fs {
+					kwIdx = i
+				}
+			}
 		case k == 4 || k == 5:
 			n := pickF(r, chainNums)
 			u := chainFontU[r.Intn(2)] // em, rem only: ex / ch on font-size is the known defect ex-ch-recursion (process-fatal)
@@ -137,7 +146,8 @@ func genChain(r *rand.Rand) any {
 			fs = n * absRatio[u]
 			fsExp.Decl, fsExp.RelUse = fmtNum(n)+u, true
 		case k == 8:
-			kw := fsKeywords[r.Intn(len(fsKeywords))]
+			kwIdx = r.Intn(len(fsKeywords))
+			kw := fsKeywords[kwIdx]
 			fs = kw.px
 			fsExp.Decl = kw.name
 		case k == 9:
@@ -145,26 +155,30 @@ func genChain(r *rand.Rand) any {
 			// otherwise only "bigger" / "smaller" is prescribed
 			larger := r.Intn(2) == 0
 			fsExp.Decl, fsExp.RelUse = map[bool]string{true: "larger", false: "smaller"}[larger], true
-			idx := -1
-			for i, kw := range fsKeywords {
-				if math.Abs(kw.px-parentFS) < 1e-9 {
-					idx = i
-				}
-			}
+			idx := parentKw
 			switch {
 			case larger && idx >= 0 && idx+1 < len(fsKeywords):
-				fs = fsKeywords[idx+1].px
+				kwIdx = idx + 1
+				fs = fsKeywords[kwIdx].px
 			case !larger && idx > 0:
-				fs = fsKeywords[idx-1].px
+				kwIdx = idx - 1
+				fs = fsKeywords[kwIdx].px
 			default:
+				// off the table (or on it only up to rounding): only the direction is prescribed;
+				// the bound is loosened by the comparison tolerance
 				fsExp.Rel = map[bool]string{true: "gt", false: "lt"}[larger]
-				fs = parentFS
+				fs = parentFS - 0.02
+				if !larger {
+					fs = parentFS + 0.02
+				}
 			}
 		case k == 10:
 			fsExp.Decl, fsExp.RelUse = "inherit", li > 0
+			kwIdx = parentKw
 		default:
 			fs = 16
 			fsExp.Decl = "initial"
+			kwIdx = 3
 		}
 		fsExp.V = fs
 		if fsExp.Decl != "" {
@@ -323,7 +337,7 @@ func genChain(r *rand.Rand) any {
 
 		style.WriteString(tag + "{" + strings.Join(decls, "; ") + "} ")
 		in.Levels = append(in.Levels, lvl)
-		parentFS, parentLH, parentLen, parentFW = fs, lh, curLen, fw
+		parentFS, parentLH, parentLen, parentFW, parentKw = fs, lh, curLen, fw, kwIdx
 	}
 	var body strings.Builder
 	for _, t := range tags[2:] {
